@@ -42,9 +42,9 @@ theorem handleReplyStep_plain {cs cs' : CtxSt} {id : ReqId} {ok : Bool} {more : 
     (h : handleReplyStep cs id ok = some (cs', more, o)) : plainOps more := by
   unfold handleReplyStep at h
   split at h
-  · simp at h
+  · simp only [Option.some.injEq, Prod.mk.injEq] at h; obtain ⟨rfl, rfl, rfl⟩ := h; exact plainOps_nil
   · split at h
-    · simp at h
+    · simp only [Option.some.injEq, Prod.mk.injEq] at h; obtain ⟨rfl, rfl, rfl⟩ := h; exact plainOps_nil
     · split at h
       · simp only [Option.some.injEq, Prod.mk.injEq] at h
         obtain ⟨-, rfl, -⟩ := h
@@ -287,9 +287,9 @@ theorem handleReplyStep_absent {cs cs' : CtxSt} {id : ReqId} {ok : Bool} {more :
   have mu := @mem_uni
   unfold handleReplyStep at hs
   split at hs
-  · simp at hs
+  · simp only [Option.some.injEq, Prod.mk.injEq] at hs; obtain ⟨rfl, rfl, rfl⟩ := hs; exact ⟨ha1, ha2⟩
   · split at hs
-    · simp at hs
+    · simp only [Option.some.injEq, Prod.mk.injEq] at hs; obtain ⟨rfl, rfl, rfl⟩ := hs; exact ⟨ha1, ha2⟩
     · split at hs
       · simp only [Option.some.injEq, Prod.mk.injEq] at hs
         obtain ⟨rfl, -, -⟩ := hs
